@@ -328,6 +328,33 @@ def exit_on_channel_close(env, fn, loop, x):
     return any(implies(ic, Not(Atom(a)))[0] for a in closed)
 
 
+def fresh_timer_arms(fns):
+    """select! arms inside a loop whose future is a timer CREATED IN THE ARM (`() = sleep(d) => ..`): the countdown restarts on
+    every iteration of the loop, so whenever another arm keeps firing faster than `d` the timer arm never does.
+    Returns [(fn, select node, branch)] for selects that have another arm which stays in the loop."""
+    from .analysis import diverges
+    out = []
+    for f in fns:
+        for n in f.nodes():
+            if n["k"] != "select":
+                continue
+            loops = [a for a in f.ancestors(n) if a["k"] in ("loop", "while", "for")]
+            if not loops:
+                continue
+            for b in n["branches"]:
+                fut = b.get("fut")
+                if fut is None:
+                    continue
+                made_here = [x for x in ir.walk(fut, into_closures=False) if x["k"] == "call" and
+                             any(p.startswith("tokio::time::") and p.rsplit("::", 1)[-1] in ("sleep", "sleep_until", "interval", "interval_at") for p in callee_paths(x))]
+                if not made_here:
+                    continue
+                others = [o for o in n["branches"] if o is not b and not diverges(o["body"])]
+                if others:
+                    out.append((f, n, b))
+    return out
+
+
 class AuxReport:
     """Minimal Report stand-in used to re-evaluate another property's rules and fold selected results."""
 
